@@ -435,4 +435,16 @@ def check_r02_6(repo: Repo, chk: Check) -> None:
                f'`{ob}.parent` is tested before `{norm(c)[:40]}`' if okd else
                f'`{norm(c)[:40]}` is reached for an object whose parent is a class (`create = Factory.create` re-exported through __all__): the class method is torn out of '
                'its class and sits in the package with kind CLASS_METHOD', repo.loc(hr.mod, c))
-    chk.require('R02.6', 4)
+    # (e) a ROOT module has no parent to be taken out of: reparent() asserts that the old parent is a container.  Two roots documented together, one
+    # re-exporting the other (`from mod import x` is fine; `import rootmod` + `__all__ = ['rootmod']`), must leave the root where it is
+    ca = repo.funcs.get('pydoctor.astbuilder.ModuleVistor._canAdoptModule')
+    if ca is None:
+        raise AnalysisError('R02.6: _canAdoptModule not found')
+    modp_ = ca.params()[-1].arg
+    root_ok = any(isinstance(t, ast.Compare) and isinstance(t.ops[0], (ast.Is, ast.IsNot)) and norm(t.left) == f'{modp_}.parent' and norm(t.comparators[0]) == 'None'
+                  for n in ca.walk() if isinstance(n, ast.If) for t in ast.walk(n.test))
+    chk.ob('R02.6', 'pydoctor.astbuilder.ModuleVistor._canAdoptModule :: a root module is never moved', root_ok,
+           f'`{modp_}.parent is None` is tested' if root_ok else
+           'a module without a parent passes the test: re-exporting a root module from a package that is documented in the same run calls reparent(), whose '
+           '`assert isinstance(old_parent, CanContainImportsDocumentable)` fails - the run aborts', ca.loc)
+    chk.require('R02.6', 5)
